@@ -340,7 +340,7 @@ PROPERTY_META = {
                 "from any enforced function (no foreign close, no double close); every function's contract states the ledger after in "
                 "terms of the ledger before (pipe_init, redirect_init/destroy, setup_input, process_*, reproc_start/close/read/write/"
                 "wait/stop/destroy); CBMC's memory-leak and pointer checks are on with allocation failure injected at every malloc.",
-        "note": OS_NOTE + "Known finding D15 excluded and listed.",
+        "note": OS_NOTE,
         "design_ref": "§3 C05"},
     "C06": {"claimed": True, "level": "proof",
         "text": "kill() and waitpid() in the OS layer assert 'pid > 0, the ledger's own child, live and unreaped'; discharged from INV in "
